@@ -2,10 +2,15 @@ import LlgoVerif.Util
 import LlgoVerif.Model.CoreGo
 import LlgoVerif.Model.OrderFix
 import LlgoVerif.Model.Blocks
+import LlgoVerif.Model.TypeCvt
+import LlgoVerif.Model.EfaceEq
 /-! Line-protocol driver for C01.
     `run FUEL <program s-expression>`  ->  `ok <hex of output bytes> normal|exit:N|panic:<hex>` | `stuck <msg>` | `timeout`
     `fix <block>`                      ->  the order the model of fixSSAOrderBlock produces (see Model/OrderFix.lean)
     `blocks <succs> <preds> <infos>`   ->  `ok` | reason: the validator of cl/blocks output (see Model/Blocks.lean)
+    `cvt (decls D*) (order T*)`        ->  the lowered types (Model/TypeCvt.lean: ssa/type_cvt.go), one shared memo
+    `efeq TV TU HASEQ DIRECT SAME EQ`  ->  `t`|`f`|`p`: Model/EfaceEq.lean on the abstraction of two interface values
+    `iter <hex>`                       ->  the (index, rune) pairs `for i, r := range s` sees (CoreGo.runesOf)
     The s-expression grammar is documented in /verif/design/C01.md and produced by /verif/harness/c01/gen.py. -/
 open LlgoVerif LlgoVerif.Util LlgoVerif.CoreGo
 
@@ -281,6 +286,99 @@ def handleBlocks (toks : List String) : String :=
     | _, _ => "bad-op"
   | _ => "bad-op"
 
+/-! ### `cvt (decls D*) (order T*)` : the Go-type -> raw-type lowering (Model/TypeCvt.lean) -/
+namespace CvtDrv
+open LlgoVerif.TypeCvt
+
+def unhexStr (s : String) : String :=
+  match unhex s with
+  | some bs => String.fromUTF8! (ByteArray.mk bs.toArray)
+  | none => ""
+
+mutual
+partial def pGTy : Sexp → P GTy
+  | .list [.atom "b", .atom n] => pure (.basic n)
+  | .list [.atom "p", t] => do pure (.ptr (← pGTy t))
+  | .list [.atom "sl", t] => do pure (.slice (← pGTy t))
+  | .list [.atom "ar", n, t] => do pure (.arr (← pNat n) (← pGTy t))
+  | .list [.atom "m", k, v] => do pure (.map (← pGTy k) (← pGTy v))
+  | .list [.atom "ch", d, t] => do pure (.chan (← pNat d) (← pGTy t))
+  | .list [.atom "n", id, raw] => do pure (.named (← pNat id) (← pBool raw))
+  | .list [.atom "f", .list ps, .list rs, v] => do pure (.sig (← ps.mapM pGTy) (← rs.mapM pGTy) (← pBool v))
+  | .list (.atom "st" :: fs) => do pure (.struct (← fs.mapM pGField))
+  | .list (.atom "if" :: ms) => do pure (.iface (← ms.mapM pGField))
+  | _ => fail "type expected"
+partial def pGField : Sexp → P Field
+  | .list [.atom n, t, e, .atom tag] => do pure (.mk n (← pGTy t) (← pBool e) (unhexStr tag))
+  | _ => fail "field expected"
+end
+
+def pDecl : Sexp → P Decl
+  | .list (.atom "d" :: u :: ms) => do
+    let ms ← ms.mapM (fun m => match m with
+      | .list [.atom n, p] => do pure (n, ← pBool p)
+      | _ => fail "method expected")
+    pure ⟨← pGTy u, ms⟩
+  | _ => fail "decl expected"
+
+/-- convert the types of `order` one after the other with one shared memo, as a compilation does -/
+def runOrder (D : Decls) (fuel : Nat) : List GTy → Memo → List String → Option (List String × Memo)
+  | [], m, acc => some (acc.reverse, m)
+  | t :: ts, m, acc =>
+    match cvt D fuel t m with
+    | none => none
+    | some ((t', c), m') => runOrder D fuel ts m' ((showTy t' ++ " " ++ (if c then "1" else "0")) :: acc)
+
+def handleCvt (items : List Sexp) : String :=
+  match items with
+  | [.list (.atom "decls" :: ds), .list (.atom "order" :: ts)] =>
+    match ds.mapM pDecl, ts.mapM pGTy with
+    | .ok decls, .ok order =>
+      let arr := decls.toArray
+      let D : Decls := fun i => arr[i]?
+      match runOrder D 100000 order [] [] with
+      | none => "out-of-fuel"
+      | some (res, m) =>
+        let twins := (List.range arr.size).map fun id =>
+          match lookup m id with
+          | some (some u) => showTy u
+          | _ => "-"
+        " | ".intercalate res ++ " || " ++ " | ".intercalate twins
+    | .error e, _ => "bad-request " ++ e
+    | _, .error e => "bad-request " ++ e
+  | _ => "bad-op"
+end CvtDrv
+
+/-- `efeq TV TU HASEQ DIRECT SAME EQ`: descriptor identities of the two operands (0 = nil interface), what the left
+    descriptor says, whether the data words are one word, and the answer of the descriptor's Equal function -/
+def handleEfeq (toks : List String) : String :=
+  match toks with
+  | [tv, tu, he, di, same, eq] =>
+    match tv.toNat?, tu.toNat? with
+    | some tv, some tu =>
+      let mk (t : Nat) (w : Nat) : EfaceEq.Eface :=
+        ⟨if t = 0 then none else some ⟨t, he == "1", di == "1"⟩, w⟩
+      let equal : EfaceEq.EqFn := fun _ _ _ => if eq == "t" then .ok true else if eq == "f" then .ok false else .error ()
+      let one (r : Except Unit Bool) : String := match r with
+        | .ok true => "t" | .ok false => "f" | .error _ => "p"
+      let v := mk tv 1
+      let u := mk tu (if same == "1" then 1 else 2)
+      one (EfaceEq.efaceEqual equal v u) ++ " " ++ one (EfaceEq.nilInterEqual equal v u)
+    | _, _ => "bad-op"
+  | _ => "bad-op"
+
+/-- `iter <hex>` -/
+def handleIter (toks : List String) : String :=
+  match toks with
+  | [h] =>
+    match unhex h with
+    | some bs =>
+      let s := bs.map (·.toNat)
+      let items := CoreGo.runesOf s.length 0 s
+      if items.isEmpty then "-" else ",".intercalate (items.map fun p => s!"{p.1}:{p.2}")
+    | none => "bad-op"
+  | _ => "bad-op"
+
 def handle (line : String) : String :=
   match line.toList with
   | 'r' :: 'u' :: 'n' :: ' ' :: rest =>
@@ -288,6 +386,12 @@ def handle (line : String) : String :=
     match (String.ofList fuelS).toNat?, parseSexps (rest.drop fuelS.length) [] with
     | some fuel, some (items, []) => handleRun fuel items
     | _, _ => "bad-op"
+  | 'c' :: 'v' :: 't' :: ' ' :: rest =>
+    match parseSexps rest [] with
+    | some (items, []) => CvtDrv.handleCvt items
+    | _ => "bad-op"
+  | 'e' :: 'f' :: 'e' :: 'q' :: ' ' :: rest => handleEfeq (fields (String.ofList rest))
+  | 'i' :: 't' :: 'e' :: 'r' :: ' ' :: rest => handleIter (fields (String.ofList rest))
   | 'f' :: 'i' :: 'x' :: rest => handleFix (fields (String.ofList rest))
   | 'b' :: 'l' :: 'o' :: 'c' :: 'k' :: 's' :: ' ' :: rest => handleBlocks (fields (String.ofList rest))
   | _ => "bad-op"
